@@ -339,11 +339,80 @@ def rule_var_precedes_fill(repo):
                 raise AnalysisError('dro.Model.%s assigns a formula cache outside do_math' % name)
 
 
+AMB_FIELDS = ('sup_constr', 'exp_constr', 'exp_constr_indices', 'pro_constr')
+
+
+def ambiguity_cache(repo, res):
+    """Ambiguity.mix_support may return self.mix_model when `not self.update`.  On the pinned tree the
+    flag is never cleared, so the lifted model is rebuilt on every formulation and no writer needs to
+    set it.  If some statement clears it (`<x>.update = False`), the cache is live, and then every
+    function that writes a field of an ambiguity set must set `.update = True` on that set on every
+    normal exit -- including the writers that go through a scenario slice (Scen.suppset / exptset)."""
+    clears = []
+    for fi in repo.all_functions():
+        if fi.module in ('deco', 'cpt_solver_bkp'):
+            continue
+        for n in walk_no_nested(fi.node):
+            if isinstance(n, ast.Assign) and any(isinstance(t, ast.Attribute) and t.attr == 'update' for t in n.targets) \
+                    and isinstance(n.value, ast.Constant) and n.value.value is False:
+                clears.append((fi, n))
+    res.inst({'ambiguity cache': 'live' if clears else 'never used (update is never cleared)',
+              'cleared_in': [f.fq for f, _ in clears]}, True)
+    if not clears:
+        return
+    for fi in repo.all_functions():
+        if fi.module in ('deco', 'cpt_solver_bkp') or fi.name == '__init__':
+            continue
+        writes = []
+        for n in walk_no_nested(fi.node):
+            tgt = None
+            if isinstance(n, ast.Assign):
+                for t in n.targets:
+                    base = t.value if isinstance(t, ast.Subscript) else t
+                    if isinstance(base, ast.Attribute) and base.attr in AMB_FIELDS:
+                        tgt = base
+            elif isinstance(n, ast.Call) and isinstance(n.func, ast.Attribute) and \
+                    n.func.attr in ('append', 'extend', 'insert', 'pop', 'remove', 'clear') and \
+                    isinstance(n.func.value, ast.Attribute) and n.func.value.attr in AMB_FIELDS:
+                tgt = n.func.value
+            if tgt is not None:
+                writes.append((n, ntext(tgt.value)))
+        if not writes:
+            continue
+        owners = {o for _n, o in writes}
+
+        class _U(MustFlow):
+            def refine(self, test, branch, state):
+                return state
+
+            def transfer(self, node, state):
+                if isinstance(node, ast.Assign) and isinstance(node.value, ast.Constant) and node.value.value is True:
+                    for t in node.targets:
+                        if isinstance(t, ast.Attribute) and t.attr == 'update':
+                            state = state | {('upd', ntext(t.value))}
+                for nn, o in writes:
+                    if any(nn is x for x in ast.walk(node)):
+                        state = (state - {'nowrite'})
+                return state
+        o_ = _U().run(body_stmts(fi), {'nowrite'})
+        exits = [s_ for s_, _n in o_.returns] + ([o_.normal] if o_.normal is not None else [])
+        for own in sorted(owners):
+            ok = all(e is None or 'nowrite' in e or ('upd', own) in e for e in exits)
+            res.inst({'writer of an ambiguity set': fi.fq, 'set': own, 'sets update': ok}, ok)
+            if not ok:
+                res.fail(Finding(RULE, fi.fq, 'token:update',
+                                 '%s writes a field of the ambiguity set `%s` but does not set %s.update = True on '
+                                 'every normal exit, while %s clears the flag: mix_support() then returns the lifted '
+                                 'model of the previous declaration (a later exptset/suppset is ignored)'
+                                 % (fi.fq, own, own, clears[0][0].fq), repo.where(fi, writes[0][0])))
+
+
 def run(repo):
     res = RuleResult(RULE, 'cache-invalidation discipline', TEXT)
     res.floor = 25
     validate_tables(repo, res)
     rule_var_precedes_fill(repo)
+    ambiguity_cache(repo, res)
     for cls_fq, (owner, paths) in STATE.items():
         cls = repo.cls(cls_fq)
         for name, fi in sorted(cls.methods.items()):
